@@ -106,7 +106,7 @@ func (e *Eval) call(fr *frame, x *ssa.Call, st State) AV {
 
 func (e *Eval) stackHasLoop() bool { return len(e.activeLoops) > 0 }
 
-func (e *Eval) record(fr *frame, x ssa.CallInstruction, callee string, recv AV, args []AV, res AV, st State) {
+func (e *Eval) record(fr *frame, x ssa.Instruction, callee string, recv AV, args []AV, res AV, st State) {
 	e.Calls = append(e.Calls, CallRec{Callee: callee, Instr: x, Fn: fr.fn, Recv: recv, Args: args, Res: res, InLoop: len(e.activeLoops) > 0, State: st.clone()})
 }
 
